@@ -341,7 +341,9 @@ fn three() -> u8 {
 pub fn enumerate() -> Vec<CrashPlan> {
     let mut v = Vec::new();
     // three components: lengths 0..=6; one, two and four components: lengths 0..=3
-    for (ncomp, max_len) in [(3u8, 6u8), (1, 3), (2, 3), (4, 3)] {
+    // ... and ZERO components: a zero-sized color (a user-defined marker color; `ArrayCast::Array = [T; 0]`), lengths
+    // 0..=5 — nothing to convert and nothing to drop, but the buffer still has a length, and so must every view of it
+    for (ncomp, max_len) in [(3u8, 6u8), (1, 3), (2, 3), (4, 3), (0, 5)] {
         for entry in ENTRIES {
             for len in 0..=max_len {
                 if entry.single() && len != 1 {
@@ -410,6 +412,7 @@ fn slots<const N: usize>(buf: &[ProbeA<Tracked, N>]) -> Vec<(u64, u32)> {
 
 pub fn execute(plan: &CrashPlan, ctx: &mut Ctx<'_>) {
     match plan.ncomp {
+        0 => execute_n::<0>(plan, ctx),
         1 => execute_n::<1>(plan, ctx),
         2 => execute_n::<2>(plan, ctx),
         4 => execute_n::<4>(plan, ctx),
